@@ -18,6 +18,12 @@ CLAIMED = {
  "C04": ("other", "sibling agreement of the presence table (TL1 mask bit, TL2 presence bit, field) across all generated sites",
          "Decides that for every generated struct the ties field↔TL1 mask bit↔hidden TL2 presence bit extracted from ReadTL1, WriteTL1, RepairMasks, FillRandom, ReadJSONGeneral, CalculateLayout, InternalWriteTL2, InternalReadTL2, WriteJSONOpt are single-valued and compose: a necessary condition for TL1→TL2→TL1 to preserve values. Value equality of JSON is not decided.",
          "trusts go/types and the shape extractor's idiom table; corpus-bounded", "DESIGN.md §3 C04"),
+ "C05": ("other", "abstract interpretation of JSON writers over a JSON grammar automaton; key-table and codec duality between WriteJSONOpt and ReadJSONGeneral",
+         "Decides for every generated type of every corpus: each JSON writer emits, on every path (including the backup/rollback idiom, optional members, loops and quoted-number dictionary keys), a token sequence that is exactly one well-formed JSON value; only constants, basictl.JSONWrite* and nested writers reach the buffer; the keys a writer can emit are keys its reader accepts (extra reader keys only for content-free types), each key names the same field with dual codecs on both sides; every type name a union writer can emit (outside the write-only Short mode) is mapped by the reader to the same variant. String/number spelling is C34. Does not decide that TL1/TL2 encodings are equal after a JSON round trip for all values.",
+         "corpus-bounded for schemas; strconv/easyjson trusted", "DESIGN.md §3 C05"),
+ "C06": ("other", "rule table over generated JSON readers and helpers (guards, defaults, mask inference statements, truth tables)",
+         "Decides presence and exact shape of each documented acceptance/rejection: unknown key and duplicate key rejected in every struct reader, omitted field given its empty value, masked field implies its (local) mask bit with the bit the writer tests, external mask bit required and explicit false with set bit rejected in types without TL2, TL2 presence bit set by the key, tuple length enforced both ways, unknown union type rejected and every arm selecting its variant, Maybe read through Json2ReadMaybe, and the Json2ReadUnion / Json2ReadMaybe truth tables. Numbers as strings are C34's reader tables. Does not decide that the pieces compose to value equality with the canonical form.",
+         "corpus-bounded; easyjson trusted", "DESIGN.md §3 C06"),
  "C07": ("other", "composition-shape rule on the six result transcoders + nat-argument/result-type agreement + C01/C03 rules on the result wrappers",
          "Decides that every ReadResultX+WriteResultY transcoder is exactly read-into-ret (error checked), then write of the same ret from the input buffer to the output buffer with no other effect; that TL1 and JSON result codecs pass identical nat arguments and one result type; that the TL1 result pair is dual and the TL2 result wrapper triple agrees slot by slot. Value equality with decode-then-encode is this composition identity, not an executed comparison.",
          "trusts go/types; corpus-bounded", "DESIGN.md §3 C07"),
